@@ -193,6 +193,36 @@ Definition sort_object (n : node) (cs : bool) : res node :=
 
 (** ---- compare_json(a, b, case_sensitive) for two non-NULL nodes: result and both operands
         afterwards (objects met on the way have been sorted in place) ---- *)
+Section CompareLoops.
+  (* the recursive call of compare_json on a pair of children *)
+  Variable rec : node -> node -> res (bool * node * node).
+  Variable cs : bool.
+
+  (* case cJSON_Array: the for loop over both chains *)
+  Fixpoint cmp_arr (la lb : list node) : res (bool * list node * list node) :=
+    match la, lb with
+    | x :: la', y :: lb' =>
+        ' (r, x', y') <- rec x y ;;
+        if r then ' (r2, la2, lb2) <- cmp_arr la' lb' ;; Ok (r2, x' :: la2, y' :: lb2)
+        else Ok (false, x' :: la', y' :: lb')
+    | [], [] => Ok (true, la, lb)
+    | _, _ => Ok (false, la, lb)                     (* array size mismatch *)
+    end.
+
+  (* case cJSON_Object: the for loop over both sorted chains *)
+  Fixpoint cmp_obj (la lb : list node) : res (bool * list node * list node) :=
+    match la, lb with
+    | x :: la', y :: lb' =>
+        if negb (compare_strings (n_key x) (n_key y) cs =? 0) then Ok (false, la, lb)   (* missing member *)
+        else
+          ' (r, x', y') <- rec x y ;;
+          if r then ' (r2, la2, lb2) <- cmp_obj la' lb' ;; Ok (r2, x' :: la2, y' :: lb2)
+          else Ok (false, x' :: la', y' :: lb')
+    | [], [] => Ok (true, la, lb)
+    | _, _ => Ok (false, la, lb)                     (* object length mismatch *)
+    end.
+End CompareLoops.
+
 Fixpoint compare_json (fuel : nat) (a b : node) (cs : bool) : res (bool * node * node) :=
   match fuel with
   | O => OutOfFuel
@@ -207,32 +237,12 @@ Fixpoint compare_json (fuel : nat) (a b : node) (cs : bool) : res (bool * node *
         | _, _ => OOB
         end
       else if t =? c_cJSON_Array then
-        ' (r, ca, cb) <-
-          (fix arr (la lb : list node) : res (bool * list node * list node) :=
-             match la, lb with
-             | x :: la', y :: lb' =>
-                 ' (r, x', y') <- compare_json f x y cs ;;
-                 if r then ' (r2, la2, lb2) <- arr la' lb' ;; Ok (r2, x' :: la2, y' :: lb2)
-                 else Ok (false, x' :: la', y' :: lb')
-             | [], [] => Ok (true, la, lb)
-             | _, _ => Ok (false, la, lb)               (* array size mismatch *)
-             end) (n_children a) (n_children b) ;;
+        ' (r, ca, cb) <- cmp_arr (fun x y => compare_json f x y cs) (n_children a) (n_children b) ;;
         Ok (r, set_children a ca, set_children b cb)
       else if t =? c_cJSON_Object then
         sa <- sort_object a cs ;;
         sb <- sort_object b cs ;;
-        ' (r, ca, cb) <-
-          (fix obj (la lb : list node) : res (bool * list node * list node) :=
-             match la, lb with
-             | x :: la', y :: lb' =>
-                 if negb (compare_strings (n_key x) (n_key y) cs =? 0) then Ok (false, la, lb)   (* missing member *)
-                 else
-                   ' (r, x', y') <- compare_json f x y cs ;;
-                   if r then ' (r2, la2, lb2) <- obj la' lb' ;; Ok (r2, x' :: la2, y' :: lb2)
-                   else Ok (false, x' :: la', y' :: lb')
-             | [], [] => Ok (true, la, lb)
-             | _, _ => Ok (false, la, lb)               (* object length mismatch *)
-             end) (n_children sa) (n_children sb) ;;
+        ' (r, ca, cb) <- cmp_obj (fun x y => compare_json f x y cs) cs (n_children sa) (n_children sb) ;;
         Ok (r, set_children sa ca, set_children sb cb)
       else Ok (true, a, b)                              (* null, true or false (and anything else) *)
   end.
@@ -451,6 +461,69 @@ Definition compose_patch (patches : list node) (operation path : bytes) (suffix 
 
 (** ---- create_patches(patches, path, from, to, case_sensitive):
         (patch list afterwards, from afterwards, to afterwards) ---- *)
+Section CreateLoops.
+  (* the recursive call of create_patches: patches, path of the child, from child, to child *)
+  Variable rec : list node -> bytes -> node -> node -> res (list node * node * node).
+  Variable path : bytes.
+  Variable cs : bool.
+
+  (* case cJSON_Array *)
+  Fixpoint cp_arr (ps : list node) (index : Z) (lf lt : list node) : res (list node * list node * list node) :=
+    match lf, lt with
+    | x :: lf', y :: lt' =>
+        ' (ps1, x', y') <- rec ps (path ++ [47] ++ print_lu index) x y ;;
+        ' (ps2, lf2, lt2) <- cp_arr ps1 (index + 1) lf' lt' ;;
+        Ok (ps2, x' :: lf2, y' :: lt2)
+    | _, _ =>
+        (* remove leftover elements of 'from' (always at the same index), then append those of 'to' *)
+        let ps1 := fold_left (fun acc _ => compose_patch acc s_remove path (Some (print_lu index)) None) lf ps in
+        let ps2 := fold_left (fun acc y => compose_patch acc s_add path (Some s_dash) (Some y)) lt ps1 in
+        Ok (ps2, lf, lt)
+    end.
+
+  (* case cJSON_Object: the while loop over both sorted chains; [g] bounds its iterations *)
+  Fixpoint cp_walk (g : nat) (ps : list node) (lf lt : list node) : res (list node * list node * list node) :=
+    match g with
+    | O => OutOfFuel
+    | S g' =>
+        match lf, lt with
+        | [], [] => Ok (ps, lf, lt)
+        | _, _ =>
+            let diff := match lf, lt with
+                        | [], _ => 1
+                        | _, [] => -1
+                        | x :: _, y :: _ => compare_strings (n_key x) (n_key y) cs
+                        end in
+            if diff =? 0 then
+              match lf, lt with
+              | x :: lf', y :: lt' =>
+                  match n_key x with
+                  | None => OOB
+                  | Some kx =>
+                      ' (ps1, x', y') <- rec ps (path ++ [47] ++ encode_string_as_pointer kx) x y ;;
+                      ' (ps2, lf2, lt2) <- cp_walk g' ps1 lf' lt' ;;
+                      Ok (ps2, x' :: lf2, y' :: lt2)
+                  end
+              | _, _ => OOB
+              end
+            else if diff <? 0 then
+              match lf with
+              | x :: lf' =>
+                  ' (ps2, lf2, lt2) <- cp_walk g' (compose_patch ps s_remove path (n_key x) None) lf' lt ;;
+                  Ok (ps2, x :: lf2, lt2)
+              | [] => OOB
+              end
+            else
+              match lt with
+              | y :: lt' =>
+                  ' (ps2, lf2, lt2) <- cp_walk g' (compose_patch ps s_add path (n_key y) (Some y)) lf lt' ;;
+                  Ok (ps2, lf2, y :: lt2)
+              | [] => OOB
+              end
+        end
+    end.
+End CreateLoops.
+
 Fixpoint create_patches (fuel : nat) (patches : list node) (path : bytes) (from to : node) (cs : bool)
   : res (list node * node * node) :=
   match fuel with
@@ -470,64 +543,13 @@ Fixpoint create_patches (fuel : nat) (patches : list node) (path : bytes) (from 
         | _, _ => OOB
         end
       else if t =? c_cJSON_Array then
-        ' (ps, fc, tc) <-
-          (fix arr (ps : list node) (index : Z) (lf lt : list node) : res (list node * list node * list node) :=
-             match lf, lt with
-             | x :: lf', y :: lt' =>
-                 ' (ps1, x', y') <- create_patches f ps (path ++ [47] ++ print_lu index) x y cs ;;
-                 ' (ps2, lf2, lt2) <- arr ps1 (index + 1) lf' lt' ;;
-                 Ok (ps2, x' :: lf2, y' :: lt2)
-             | _, _ =>
-                 (* remove leftover elements of 'from' (always at the same index), then append those of 'to' *)
-                 let ps1 := fold_left (fun acc _ => compose_patch acc s_remove path (Some (print_lu index)) None) lf ps in
-                 let ps2 := fold_left (fun acc y => compose_patch acc s_add path (Some s_dash) (Some y)) lt ps1 in
-                 Ok (ps2, lf, lt)
-             end) patches 0 (n_children from) (n_children to) ;;
+        ' (ps, fc, tc) <- cp_arr (fun ps p x y => create_patches f ps p x y cs) path patches 0 (n_children from) (n_children to) ;;
         Ok (ps, set_children from fc, set_children to tc)
       else if t =? c_cJSON_Object then
         sf <- sort_object from cs ;;
         st <- sort_object to cs ;;
-        ' (ps, fc, tc) <-
-          (fix walk (g : nat) (ps : list node) (lf lt : list node) : res (list node * list node * list node) :=
-             match g with
-             | O => OutOfFuel
-             | S g' =>
-                 match lf, lt with
-                 | [], [] => Ok (ps, lf, lt)
-                 | _, _ =>
-                     let diff := match lf, lt with
-                                 | [], _ => 1
-                                 | _, [] => -1
-                                 | x :: _, y :: _ => compare_strings (n_key x) (n_key y) cs
-                                 end in
-                     if diff =? 0 then
-                       match lf, lt with
-                       | x :: lf', y :: lt' =>
-                           match n_key x with
-                           | None => OOB
-                           | Some kx =>
-                               ' (ps1, x', y') <- create_patches f ps (path ++ [47] ++ encode_string_as_pointer kx) x y cs ;;
-                               ' (ps2, lf2, lt2) <- walk g' ps1 lf' lt' ;;
-                               Ok (ps2, x' :: lf2, y' :: lt2)
-                           end
-                       | _, _ => OOB
-                       end
-                     else if diff <? 0 then
-                       match lf with
-                       | x :: lf' =>
-                           ' (ps2, lf2, lt2) <- walk g' (compose_patch ps s_remove path (n_key x) None) lf' lt ;;
-                           Ok (ps2, x :: lf2, lt2)
-                       | [] => OOB
-                       end
-                     else
-                       match lt with
-                       | y :: lt' =>
-                           ' (ps2, lf2, lt2) <- walk g' (compose_patch ps s_add path (n_key y) (Some y)) lf lt' ;;
-                           Ok (ps2, lf2, y :: lt2)
-                       | [] => OOB
-                       end
-                 end
-             end) (S (length (n_children sf) + length (n_children st))) patches (n_children sf) (n_children st) ;;
+        ' (ps, fc, tc) <- cp_walk (fun ps p x y => create_patches f ps p x y cs) path cs
+                            (S (length (n_children sf) + length (n_children st))) patches (n_children sf) (n_children st) ;;
         Ok (ps, set_children sf fc, set_children st tc)
       else Ok (patches, from, to)
   end.
